@@ -113,6 +113,11 @@ pub async fn scenario() {
 	// client pings (1 s) with an inactivity limit on the virtual clock; the scripted peer answers every ping
 	let ping_mode = !sweep_base && rt::param("fault_at").is_none() && rt::chance("ping_mode", 1, 5);
 	let ping_cfg = if ping_mode { Some((*rt::pick("inactive_ms", &[1500u64, 2000, 3500]), *rt::pick("max_failures", &[1usize, 2, 3]))) } else { None };
+	// flood mode: three tasks keep sending notifications without pause, so that the request queue (capacity 1-2) is
+	// never empty and every send takes 5 ms: shutdown has to happen under load; short request timeout to keep it cheap
+	let flood = !sweep_base && rt::param("fault_at").is_none() && !ping_mode && rt::chance("flood", 1, 10);
+	let max_conc = if flood { *rt::pick("flood_max_conc", &[1usize, 2]) } else { max_conc };
+	let req_timeout = if flood { Duration::from_secs(3) } else { Duration::from_secs(60) };
 	// the fault: (kind, position). kind: 0 send error, 1 recv error, 2 peer close, 3+k poison k
 	let (kind, pos, front): (Option<u32>, u64, bool) = if let Some(p) = rt::param("fault_at") {
 		let fk = rt::param("fault_kind").unwrap_or(0) as u32;
@@ -134,14 +139,16 @@ pub async fn scenario() {
 			1 => rt::draw_range("tf", 1, 2),
 			_ => 3 + rt::draw("poison", N_POISON),
 		};
-		(Some(kind), rt::draw_range("fault_pos", 1, 30) as u64, rt::chance("front", 1, 2))
+		// (in flood mode every notification is a seam event: the fault comes later, when the flood is in full swing)
+		(Some(kind), rt::draw_range("fault_pos", 1, 30) as u64 + if flood { 15 } else { 0 }, rt::chance("front", 1, 2))
 	};
-	rt::event("plan", format!("fronts={plans:?} late={n_late} silent={silent} ping={ping_cfg:?} max_conc={max_conc} id_str={id_str} presub={presub} close_mode={close_mode} fault={:?}@{pos}", kind.map(describe_fault)));
+	rt::event("plan", format!("fronts={plans:?} late={n_late} silent={silent} flood={flood} ping={ping_cfg:?} max_conc={max_conc} id_str={id_str} presub={presub} close_mode={close_mode} fault={:?}@{pos}", kind.map(describe_fault)));
 
 	let (wire, tx, rx) = Wire::new();
 	{
 		let mut w = wire.lock();
 		w.close_mode = close_mode;
+		w.send_ms = if flood { 5 } else { 0 };
 		w.silent_after_send_fail = silent;
 		if let Some(k) = kind {
 			w.fault_at = Some(pos);
@@ -170,7 +177,7 @@ pub async fn scenario() {
 		builder
 			.max_concurrent_requests(max_conc)
 			.id_format(if id_str { IdKind::String } else { IdKind::Number })
-			.request_timeout(Duration::from_secs(60))
+			.request_timeout(req_timeout)
 			.build_with_tokio(tx, rx),
 	);
 	let ops: Arc<Mutex<Vec<(OpRec, u64, tokio::time::Instant, tokio::time::Instant)>>> = Arc::default(); // (.., invoked at, completed at)
@@ -210,6 +217,26 @@ pub async fn scenario() {
 		}
 	}
 
+	// flood producers
+	let flood_stop = Arc::new(std::sync::atomic::AtomicBool::new(false));
+	let mut flooders = Vec::new();
+	if flood {
+		rt::probe("flood_mode");
+		for _ in 0..3 {
+			let (client, stop) = (client.clone(), flood_stop.clone());
+			flooders.push(rt::spawn("flood", async move {
+				let mut k = 0u64;
+				while !stop.load(std::sync::atomic::Ordering::Relaxed) {
+					k += 1;
+					if jsonrpsee_core::client::ClientT::notification(&*client, "flood", rpc_params![k]).await.is_err() {
+						break;
+					}
+				}
+			}));
+		}
+		// let the flood get going before anything else happens
+		tokio::time::sleep(Duration::from_millis(30)).await;
+	}
 	// front-ends
 	let mut hs = Vec::new();
 	for (ti, plan) in plans.into_iter().enumerate() {
@@ -254,6 +281,13 @@ pub async fn scenario() {
 	// span longer than the request timeout stands in for quiescence)
 	if ping_mode {
 		tokio::time::sleep(Duration::from_secs(70)).await;
+	} else if flood {
+		tokio::time::sleep(req_timeout + Duration::from_secs(2)).await;
+		flood_stop.store(true, std::sync::atomic::Ordering::Relaxed);
+		for f in flooders {
+			let _ = tokio::time::timeout(Duration::from_secs(5), f).await;
+		}
+		rt::quiesce().await;
 	} else {
 		rt::quiesce().await;
 	}
@@ -285,7 +319,7 @@ pub async fn scenario() {
 		_ => {}
 	}
 	early_watcher.abort();
-	check(&wire, &ops.lock().unwrap(), &peer_log.lock().unwrap(), kind, connected, on_disc, first_phase, presub && consumer.is_some(), &consumer_ended.lock().unwrap(), ping_mode);
+	check(&wire, &ops.lock().unwrap(), &peer_log.lock().unwrap(), kind, connected, on_disc, first_phase, presub && consumer.is_some(), &consumer_ended.lock().unwrap(), ping_mode, req_timeout);
 	if sweep_base {
 		rt::probe_n("seam_events", wire.lock().seam_count);
 	}
@@ -325,6 +359,7 @@ fn check(
 	has_consumer: bool,
 	consumer_ended: &Option<(u64, String)>,
 	ping_mode: bool,
+	req_timeout: Duration,
 ) {
 	let w = wire.lock();
 	let fault_name = kind.map(describe_fault).unwrap_or_else(|| "none".into());
@@ -374,8 +409,8 @@ fn check(
 	for (idx, (op, inv_stamp, inv_t, done_t)) in ops.iter().enumerate() {
 		let late = idx >= first_phase;
 		// whatever happens to the connection: no call, batch or subscribe stays pending longer than the request timeout
-		if matches!(op.outcome, Outcome::Call(..) | Outcome::Batch(..) | Outcome::Sub(..)) && done_t.duration_since(*inv_t) > Duration::from_secs(61) {
-			rt::violate(P, "pending-longer-than-timeout", format!("{}:{fault_name}", match op.outcome { Outcome::Call(..) => "call", Outcome::Batch(..) => "batch", _ => "subscribe" }), format!("op {:?} completed {:?} after it was invoked (request timeout 60 s)", op.nonces, done_t.duration_since(*inv_t)));
+		if matches!(op.outcome, Outcome::Call(..) | Outcome::Batch(..) | Outcome::Sub(..)) && done_t.duration_since(*inv_t) > req_timeout + Duration::from_secs(1) {
+			rt::violate(P, "pending-longer-than-timeout", format!("{}:{fault_name}", match op.outcome { Outcome::Call(..) => "call", Outcome::Batch(..) => "batch", _ => "subscribe" }), format!("op {:?} completed {:?} after it was invoked (request timeout {req_timeout:?})", op.nonces, done_t.duration_since(*inv_t)));
 		}
 		if let Some(n) = noticed {
 			if *inv_stamp < n && op.done_stamp > n {
@@ -397,7 +432,7 @@ fn check(
 			} else if e.contains(PLACEHOLDER) {
 				rt::violate(P, "placeholder-cause", format!("{what}:{phase}:{fault_name}"), format!("op {:?} failed with the placeholder error instead of the disconnect cause: {e}", op.nonces));
 			} else if e.contains("RequestTimeout") {
-				let elapsed_before_fault = w.fault_fired_vtime.is_some_and(|ft| ft.duration_since(*inv_t) >= Duration::from_secs(60));
+				let elapsed_before_fault = w.fault_fired_vtime.is_some_and(|ft| ft.duration_since(*inv_t) >= req_timeout);
 				// a silent peer is only a failure once the client has given up on it
 				let excused = if silence { !noticed.is_some_and(|n| op.done_stamp > n) } else { kind == Some(SEND_HANG) || elapsed_before_fault };
 				if !excused {
